@@ -26,6 +26,12 @@ class C03(ProgProp):
             return {"deep": shape, "n": n, "leaf": rng.choice(["value", "item", "error"]),
                     "catch_at": rng.choice([None, None, 0, 1, 7]), "conv": rng.choice(["call", "value"]),
                     "shared": rng.random() < 0.3}
+        if k % 8 == 3:
+            from .. import gen as g
+            spec = g.motif_dup_ref(rng)
+            nv = self.variants_quick if tier == "quick" else self.variants_thorough
+            return {"spec": spec, "variants": [{"conv": ["call", "value", "wrapped"][i % 3], "prio": g.gen_prio(rng, spec["kinds"])}
+                                               for i in range(nv)]}
         return ProgProp.gen(self, rng, tier, k)
 
     def sample(self, case, r):
